@@ -65,11 +65,14 @@ class Static(BaseComponent):
         else:
             location = os.path.abspath(os.path.join(self.docroot, '.'))
 
+        # Only ever look at the document root itself or at what lies below it:
+        # "docroot + os.sep" so that neither the parent directory nor a sibling
+        # whose name merely starts with the docroot's name passes.
+        if location != self.docroot and not location.startswith(self.docroot.rstrip(os.sep) + os.sep):
+            return None  # hacking attempt e.g. /foo/../../../../../etc/shadow
+
         if not os.path.exists(location):
             return None
-
-        if not location.startswith(os.path.dirname(self.docroot)):
-            return None  # hacking attempt e.g. /foo/../../../../../etc/shadow
 
         # Is it a file we can serve directly?
         if os.path.isfile(location):
